@@ -5,8 +5,8 @@ E2  bounded-exhaustive padding: one argument of each kind x every combination of
     alone and next to one argument of each other kind
 R   seeded random lists of length 1..6: positional / named / numeric-named arguments, blanks / tabs / newlines
     (rarely CR, NBSP, U+3000) around names and values, inner newlines, values containing '=', hostile but plain
-    names (apostrophe, ampersand, double quote, blank runs, signs, decimals, zero, non-ASCII letters and digits),
-    numeric names with leading zeros, > 1000, huge.
+    names (apostrophe, ampersand, double quote, a lone < > [ ], no name at all, blank runs, signs, decimals, zero,
+    non-ASCII letters and digits), numeric names with leading zeros, > 1000, around 2**53, 20 digits.
 Every list is filtered by vf.ref.c14_argviews.admissible (precondition of the statement).
 """
 from __future__ import annotations
@@ -61,13 +61,17 @@ def n_exhaustive(maxlen):
 # ------------------------------------------------------------------ random lists
 
 WORDS = ["a", "b", "x", "foo", "Bar", "x1", "long word", "é", "жук", "中文", "z9", "A.B", "a-b", "a_b", "a:b", "a/b",
-         "q?", "w!", "50%", "a,b", "(c)", "a+b", "n°5", "#1", "*s", ";t", ":u", "~", "@h", "$5", "^", "`", "\\"]
+         "q?", "w!", "50%", "a,b", "(c)", "a+b", "n°5", "#1", "*s", ";t", ":u", "~", "@h", "$5", "^", "`", "\\",
+         "3<4", "x>y", "a]", "[b"]
 NAME_SIMPLE = ["k", "key", "name", "lang", "t", "tr", "alt", "pos", "g", "Key", "nocat", "sc", "id", "x1", "a b", "first name",
                "a-b", "a.b", "a_b", "a:b", "é", "жук", "中", "#", "*", "!", "~", "%", "a(b"]
-NAME_ODD = ["0", "00", "-1", "+2", "1.5", "1e3", "0x10", "1a", "a1", "1 2", "٣", "１２", "²", "①", "٠", "१"]
-NAME_HOSTILE = ["it's", "o'k", "a&b", "AT&T", 'a"b', '"q"', "a  b", "a\nb", "a\tb", "a \n b", "x'y&z", "a 'b' c"]
-NUMS = ["1", "2", "3", "4", "5", "6", "7", "8", "9", "10", "12", "20", "99", "100", "999", "1000", "1001", "1002", "5000", "65536",
-        "99999999999999999999"]
+NAME_ODD = ["0", "00", "-1", "+2", "1.5", "1e3", "0x10", "1a", "a1", "1 2", "٣", "１２", "²", "①", "٠", "१",
+            # names that were once the private fields / sentinel of the Lua argument table, and Lua-ish words
+            "_orig", "_frame", "_next_key", "_preprocessed", "***nil***", "__index", "args", "nil", "n"]
+NAME_HOSTILE = ["it's", "o'k", "a&b", "AT&T", 'a"b', '"q"', "a  b", "a\nb", "a\tb", "a \n b", "x'y&z", "a 'b' c",
+                "R&D", 'say "hi"', "a<b", "a>b", "x[y", "x]y", "<", "]", "n>0", "", "", ""]
+NUMS = ["1", "2", "3", "4", "5", "6", "7", "8", "9", "10", "12", "20", "99", "100", "999", "1000", "1001", "1002", "2024", "5000", "65536",
+        "9007199254740992", "9007199254740993", "99999999999999999999"]
 
 
 def _ws(rng, allow_trailing_nl=True, p_empty=0.5):
@@ -110,12 +114,12 @@ def _text(rng, eq_ok):
 
 def _name(rng):
     r = rng.random()
-    if r < 0.82:
+    if r < 0.80:
         n = rng.choice(NAME_SIMPLE)
         if rng.random() < 0.3:
             n += str(rng.randrange(1, 30)) if rng.random() < 0.5 else rng.choice("abcxyz")
         return n
-    if r < 0.94:
+    if r < 0.91:
         return rng.choice(NAME_ODD)
     return rng.choice(NAME_HOSTILE)
 
